@@ -240,7 +240,7 @@ def run(ck):
             continue
         seen.add(key)
         ck.report(dict(input=cases[ci]["line"][:200000]), oracle=key, key="vtk:" + key, what="write/read round trip violates " + f)
-    if broken and not fails:
+    if broken and not ck.violations:
         ci, d = broken[0]
         ck.report(dict(input=cases[ci]["line"][:200000], difference=d, n_disagreements=len(broken)), unchecked="correspondence Vtk.v = mesh_writer / mesh_reader",
                   what="model and implementation disagree on %d cases (%s); the property oracle found no failing input" % (len(broken), d))
